@@ -16,6 +16,15 @@ pub fn exec(run: u64, prog: &Value, out: &mut Out) {
     out.emit(json!({"ev":"reset","run":run,"raw":r,"value":v,"panic":false}));
     for op in list(prog, "ops") {
         let name = str_of(get(op, "op"));
+        if name == "append_fill" || name == "delete_fill" {
+            let n = u64_of(get(op, "n")) as usize;
+            let b = u8_of(get(op, "b"));
+            let data = vec![b; n];
+            let res = guarded(|| if name == "append_fill" { c.append(&data) } else { c.delete(&data) });
+            let (r, v) = obs(&c);
+            out.emit(json!({"ev":name,"run":run,"n":n as u64,"b":b,"raw":r,"value":v,"panic":res.is_err()}));
+            continue;
+        }
         let arg = bytes_of(get(op, "arg"));
         let res = guarded(|| match name {
             "add" => c.add(arg[0]),
@@ -48,21 +57,35 @@ fn table(run: u64, out: &mut Out) {
             let mut values = Vec::new();
             let mut backs = Vec::new();
             for b in 0..=255u8 {
-                let mut c = Checksum::default();
-                c.add(s);
-                if which == "add_all" {
-                    c.add(b)
-                } else {
-                    c.sub(b)
+                // a panic of the accumulator is data: recorded as -1
+                let r = guarded(|| {
+                    let mut c = Checksum::default();
+                    c.add(s);
+                    if which == "add_all" {
+                        c.add(b)
+                    } else {
+                        c.sub(b)
+                    }
+                    let (raw, value) = (c.raw_value(), c.value());
+                    if which == "add_all" {
+                        c.sub(b)
+                    } else {
+                        c.add(b)
+                    }
+                    (raw, value, c.raw_value())
+                });
+                match r {
+                    Ok((raw, value, back)) => {
+                        raws.push(json!(raw));
+                        values.push(json!(value));
+                        backs.push(json!(back));
+                    }
+                    Err(()) => {
+                        raws.push(json!(-1));
+                        values.push(json!(-1));
+                        backs.push(json!(-1));
+                    }
                 }
-                raws.push(json!(c.raw_value()));
-                values.push(json!(c.value()));
-                if which == "add_all" {
-                    c.sub(b)
-                } else {
-                    c.add(b)
-                }
-                backs.push(json!(c.raw_value()));
             }
             out.emit(json!({"ev":which,"run":run,"s":s,"raws":raws,"values":values,"backs":backs}));
         }
